@@ -508,12 +508,14 @@ func (c *evalCtx) resolveType(name string) types.Type {
 		return tMathInt
 	case "bool":
 		return tBool
-	case "byte", "uint8":
+	case "byte":
 		return types.Typ[types.Uint8]
 	case "uint":
 		return types.Typ[types.Uint]
 	case "string":
 		return types.Typ[types.String]
+	case "uint8", "uint16", "uint32", "uint64", "int8", "int16", "int32", "int64", "uintptr", "rune":
+		return types.Universe.Lookup(name).Type()
 	case "any":
 		return types.NewInterfaceType(nil, nil)
 	case "error":
